@@ -88,64 +88,113 @@ func runC18(c *Ctx) {
 				// the interval the path conditions leave for the persisted mode (every load of js.IATMode is
 				// the same value: the builder does not write it)
 				lo, hi := int64(-1<<62), int64(1<<62)
+				facts := append([]Fact{}, p.Facts(fn).NC(s.Instr.Block())...)
+				// a range predicate valid(x) called on the mode: the conditions under which it returns the
+				// value that lets the store be reached, re-stated on the caller's operand
+				type sub struct{ par, arg ssa.Value }
+				subs := []sub{}
 				for _, f := range p.Facts(fn).NC(s.Instr.Block()) {
-					bo, ok := f.Cond.(*ssa.BinOp)
-					if !ok {
+					cnd, pol := stripNot(f.Cond, f.Pol)
+					cl, _ := callOf(unspill(cnd))
+					if cl == nil {
 						continue
 					}
-					x, y, op := bo.X, bo.Y, bo.Op
-					if _, isC := x.(*ssa.Const); isC {
-						x, y = y, x
+					g := cl.Common().StaticCallee()
+					if g == nil || !p.inModule(g) || len(g.Params) != 1 || len(cl.Common().Args) != 1 {
+						continue
+					}
+					var pick *ssa.Return
+					cnt := 0
+					for _, r := range returnsOf(g) {
+						if len(r.Results) != 1 {
+							continue
+						}
+						if k, ok := unspill(r.Results[0]).(*ssa.Const); ok && k.Value != nil && (k.Value.String() == "true") == pol {
+							pick = r
+							cnt++
+						}
+					}
+					if cnt != 1 {
+						continue
+					}
+					facts = append(facts, p.Facts(g).NC(pick.Block())...)
+					subs = append(subs, sub{g.Params[0], cl.Common().Args[0]})
+				}
+				hullLo, hullHi, first := int64(0), int64(0), true
+				for _, altFacts := range p.Facts(fn).Alternatives(facts, 0) {
+					lo, hi = int64(-1<<62), int64(1<<62)
+					for _, f := range altFacts {
+						bo, ok := f.Cond.(*ssa.BinOp)
+						if !ok {
+							continue
+						}
+						x, y, op := bo.X, bo.Y, bo.Op
+						if _, isC := x.(*ssa.Const); isC {
+							x, y = y, x
+							switch op {
+							case token.LSS:
+								op = token.GTR
+							case token.LEQ:
+								op = token.GEQ
+							case token.GTR:
+								op = token.LSS
+							case token.GEQ:
+								op = token.LEQ
+							}
+						}
+						k, isK := intConst(y)
+						if !isK {
+							continue
+						}
+						unsigned := false
+						if cv, isCv := x.(*ssa.Convert); isCv {
+							if bt, ok := cv.Type().Underlying().(*types.Basic); ok && bt.Info()&types.IsUnsigned != 0 {
+								unsigned = true
+							}
+							x = cv.X
+						}
+						for _, sb := range subs {
+							if unspill(x) == sb.par {
+								x = sb.arg
+							}
+						}
+						if !isFieldLoad(unspill(x), "transports/obfs4.jsonServerState", "IATMode") {
+							continue
+						}
+						if !f.Pol {
+							op = negOp(op)
+						}
 						switch op {
 						case token.LSS:
-							op = token.GTR
+							if k-1 < hi {
+								hi = k - 1
+							}
 						case token.LEQ:
-							op = token.GEQ
+							if k < hi {
+								hi = k
+							}
 						case token.GTR:
-							op = token.LSS
+							if k+1 > lo {
+								lo = k + 1
+							}
 						case token.GEQ:
-							op = token.LEQ
+							if k > lo {
+								lo = k
+							}
+						}
+						if unsigned && (op == token.LSS || op == token.LEQ) && lo < 0 {
+							lo = 0
 						}
 					}
-					k, isK := intConst(y)
-					if !isK {
-						continue
+					if first || lo < hullLo {
+						hullLo = lo
 					}
-					unsigned := false
-					if cv, isCv := x.(*ssa.Convert); isCv {
-						if bt, ok := cv.Type().Underlying().(*types.Basic); ok && bt.Info()&types.IsUnsigned != 0 {
-							unsigned = true
-						}
-						x = cv.X
+					if first || hi > hullHi {
+						hullHi = hi
 					}
-					if !isFieldLoad(unspill(x), "transports/obfs4.jsonServerState", "IATMode") {
-						continue
-					}
-					if !f.Pol {
-						op = negOp(op)
-					}
-					switch op {
-					case token.LSS:
-						if k-1 < hi {
-							hi = k - 1
-						}
-					case token.LEQ:
-						if k < hi {
-							hi = k
-						}
-					case token.GTR:
-						if k+1 > lo {
-							lo = k + 1
-						}
-					case token.GEQ:
-						if k > lo {
-							lo = k
-						}
-					}
-					if unsigned && (op == token.LSS || op == token.LEQ) && lo < 0 {
-						lo = 0
-					}
+					first = false
 				}
+				lo, hi = hullLo, hullHi
 				_ = b
 				if lo != 0 || hi != 2 {
 					bad = fmt.Sprintf("the iat-mode that reaches the state ranges over [%d,%d], expected [0,2]", lo, hi)
